@@ -163,22 +163,30 @@ func c08FrameBookkeeping(c *core.Ctx) {
 		}
 		return ""
 	}
-	resets := f.CallsTo("abft/election.Election.Reset")
+	// election resets of onFrameDecided: in place, or in a helper on the same receiver that resets the
+	// election on every path on which no step failed (the helper's parameters are bound to the arguments)
+	type c08reset struct {
+		site c08site
+		Pt   core.Point     // the call in onFrameDecided
+		G    *core.FuncInfo // where the frame argument is written
+		Arg  ast.Expr       // the frame argument (nil when the Reset has not two arguments)
+	}
+	var resets []c08reset
+	var resetSites []c08site
+	for _, st := range c09effectSites(f, func(cs *core.CallSite) bool { return cs.Name == "abft/election.Election.Reset" }, 2) {
+		r := c08reset{site: st, Pt: st.Outer().Pt}
+		if len(st.Inner().Call.Args) == 2 {
+			r.G, r.Arg = c08arg(st, 1)
+		}
+		resets = append(resets, r)
+		resetSites = append(resetSites, st)
+	}
 	c.ExpectAtLeast("election resets in onFrameDecided", len(resets), 1)
 	sets := assignsToField(f, ldfF)
 	c.Need(len(sets) >= 1, "onFrameDecided assigns LastDecidedFrame")
 	// which side of "the callback returned validators" a point lies on (+1 sealed, -1 not, 0 either):
 	// a definition on one side and an assignment on the other never meet in one run
-	var newV *types.Var
-	applies := map[ast.Expr]bool{}
-	for _, cs := range c09funcFieldCalls(f, "abft.OrdererCallbacks.ApplyAtropos") {
-		applies[cs.Call] = true
-	}
-	for _, a := range assignments(f) {
-		if a.RHS != nil && applies[ast.Unparen(a.RHS)] {
-			newV = varOf(f, a.LHS)
-		}
-	}
+	newV := c09sealVar(f)
 	side := func(pt core.Point) int {
 		if newV == nil {
 			return 0
@@ -192,12 +200,39 @@ func c08FrameBookkeeping(c *core.Ctx) {
 		return 0
 	}
 	for _, r := range resets {
-		ok := len(r.Call.Args) == 2
+		ok := r.Arg != nil && r.G != nil
 		nPairs := 0
+		inHelper := ok && r.G != f
+		if inHelper {
+			// the frame is chosen inside the helper: only a constant expression can be compared with what
+			// onFrameDecided assigns (the helper's own variables mean nothing here)
+			a := core.Linearize(r.G.Info(), resolveLocal(r.G, r.Arg), namer)
+			for _, at := range a.Atom {
+				if _, isC := r.G.ObjOf(at).(*types.Const); !isC {
+					ok = false
+				}
+			}
+			partners := 0
+			for i := range sets {
+				s := &sets[i]
+				if !ok || !(f.CanReach(s.Pt, r.Pt) || f.CanReach(r.Pt, s.Pt)) {
+					continue
+				}
+				if side(r.Pt)*side(s.Pt) < 0 {
+					continue // the two lie on different sides of "the callback returned validators"
+				}
+				partners++
+				if s.RHS == nil || !c08oneApart(a, core.Linearize(f.Info(), resolveLocal(f, s.RHS), namer)) {
+					ok = false
+				}
+			}
+			c.Check(ok && partners > 0, "election restarts one frame above the persisted last decided frame", "linear normaliser (helper bound to its arguments)", r.site.Inner().Pos(), "the constant frame the helper resets the election to is one above the LastDecidedFrame assigned on that path", "the election is restarted at a frame that is not last-decided + 1: frames would be skipped or decided twice")
+			continue
+		}
 		// first as written: Reset(·, next) with LastDecidedFrame = next - 1, whatever `next` holds, is one
 		// apart as long as nothing assigns the locals both sides mention between the two statements
 		if ok {
-			a := core.Linearize(f.Info(), resolveLocal(f, r.Call.Args[1]), namer)
+			a := core.Linearize(f.Info(), resolveLocal(f, r.Arg), namer)
 			direct, n := true, 0
 			for i := range sets {
 				s := &sets[i]
@@ -232,7 +267,7 @@ func c08FrameBookkeeping(c *core.Ctx) {
 			}
 		}
 		if ok {
-			for _, d := range c08reaching(f, r.Call.Args[1], r.Pt) {
+			for _, d := range c08reaching(f, r.Arg, r.Pt) {
 				if d.E == nil {
 					ok = false // the zero frame / an unknown value reaches the Reset
 					continue
@@ -275,7 +310,7 @@ func c08FrameBookkeeping(c *core.Ctx) {
 				nPairs += partners
 			}
 		}
-		c.Check(ok && nPairs > 0, "election restarts one frame above the persisted last decided frame", "linear normaliser (reaching definitions)", r.Pos(), "every frame that reaches Reset(·, x+1) is paired with LastDecidedFrame = x on the same path", "the election is restarted at a frame that is not last-decided + 1: frames would be skipped or decided twice")
+		c.Check(ok && nPairs > 0, "election restarts one frame above the persisted last decided frame", "linear normaliser (reaching definitions)", r.site.Outer().Pos(), "every frame that reaches Reset(·, x+1) is paired with LastDecidedFrame = x on the same path", "the election is restarted at a frame that is not last-decided + 1: frames would be skipped or decided twice")
 	}
 	// the state is persisted on every non-error path, after it was given a last decided frame, and the
 	// election has been reset on that path
@@ -287,7 +322,7 @@ func c08FrameBookkeeping(c *core.Ctx) {
 		if o, _ := f.MustPassBefore(pers, rp); !o {
 			okP = false
 		}
-		if o, _ := f.MustPassBefore(core.Points(resets), rp); !o {
+		if o, _ := c09mustPassSitesBefore(f, resetSites, rp); !o {
 			okR = false
 		}
 	}
